@@ -24,6 +24,76 @@ CMPZ = {ast.Lt: "(%s <? %s)", ast.LtE: "(%s <=? %s)", ast.Gt: "(%s >? %s)", ast.
 BINZ = {ast.Add: "(%s + %s)", ast.Sub: "(%s - %s)", ast.Mult: "(%s * %s)", ast.Mod: "(%s mod %s)", ast.FloorDiv: "(%s / %s)"}
 
 
+# locals of each parsed function in order of first binding: a pure renaming of locals in the source is mapped back to
+# these names before the shapes are matched (a harmless rewrite must not break the tie)
+ORIG_LOCALS = {
+    "keyify": ['args', 'key', 'x'],
+    "CornerDataContainer.append": ['val_elem', 'val_adj', 'attr'],
+    "RawMeshData.prepare": [],
+    "RawMeshData._prepare_vertices": ['iv'],
+    "RawMeshData._prepare_edges": ['N', 'is_valid', 'a', 'b', 'edges_invalid', 'new_edges', 'new_attrs', 'old_attrs',
+                                   'attr_name', 'n', 'ie', 'name'],
+    "RawMeshData._generate_face_corners": ['nc', 'nf', 'f', 'iF', 'F', 'v'],
+    "RawMeshData._generate_cell_corners": ['nce', 'nca', 'iC', 'C', 'v'],
+    "RawMeshData._generate_cell_faces": ['nce', 'nca', 'face_id', 'iF', 'F', 'key', 'iC', 'C', 'v0', 'v1', 'v2', 'v3',
+                                         'faces_C', 'v4', 'v5', 'v6', 'v7', 'v8', 'face'],
+    "RawMeshData._complete_edges_from_faces": ['hard_edges', 'e', 'edge_set', 'f', 'nf', 'i', 'edge'],
+    "RawMeshData._complete_faces_from_cells": ['face_set', 'f', 'C', 'faces_C', 'v1', 'v2', 'v3', 'v4', 'v5', 'v6', 'v7',
+                                               'v8', 'v0', 'face', 'face_key'],
+    "RawMeshData._compute_dimensionality": [],
+    "_instanciate_raw_mesh_data": ['mesh_data', 'dim'],
+    "from_arrays": ['V', 'E', 'F', 'C', 'raw', 'm', 'n_vert'],
+    "Mesh.__init__": ['dim', 'data'],
+}
+
+
+def bound_names(fn):
+    out = []
+
+    def add(n):
+        if n != "self" and n not in out:
+            out.append(n)
+
+    class V(ast.NodeVisitor):
+        def visit_arg(self, node):
+            add(node.arg)
+
+        def visit_Name(self, node):
+            if isinstance(node.ctx, ast.Store):
+                add(node.id)
+
+        def visit_FunctionDef(self, node):
+            if node is not fn:
+                add(node.name)
+            self.generic_visit(node)
+    V().visit(fn)
+    return out
+
+
+def fdef(tree, qual, rel):
+    """find_def + mapping renamed locals back to the names the shape matchers are written with"""
+    import copy
+    fn = T.find_def(tree, qual, rel)
+    orig = ORIG_LOCALS.get(qual)
+    cur = bound_names(fn)
+    if orig is None or cur == orig:
+        return fn
+    new = [n for n in cur if n not in orig]        # names the source uses now ...
+    missing = [n for n in orig if n not in cur]    # ... in place of these, matched in order of first binding
+    if not new or len(new) != len(missing):
+        return fn
+    ren = dict(zip(new, missing))
+    fn2 = copy.deepcopy(fn)
+    for node in ast.walk(fn2):
+        if isinstance(node, ast.Name) and node.id in ren:
+            node.id = ren[node.id]
+        elif isinstance(node, ast.arg) and node.arg in ren:
+            node.arg = ren[node.arg]
+        elif isinstance(node, ast.FunctionDef) and node is not fn2 and node.name in ren:
+            node.name = ren[node.name]
+    return fn2
+
+
 class Tr:
     """integer / boolean expression translator over an explicit environment of python-expression -> Coq variable"""
 
@@ -156,7 +226,7 @@ def gen():
 
     # ------------------------------------------------------------------ utils.keyify
     src, tree = T.load(UT)
-    kf = T.find_def(tree, "keyify", UT)
+    kf = fdef(tree, "keyify", UT)
     parts.append(("utilities.keyify", T.sha(src, kf)))
     b = T.body_nodoc(kf)
     if not (kf.args.vararg is not None and not kf.args.args and len(b) == 3 and isinstance(b[0], ast.If)):
@@ -186,7 +256,7 @@ def gen():
 
     # ------------------------------------------------------------------ data_container: CornerDataContainer.append
     src, tree = T.load(DC)
-    ap = T.find_def(tree, "CornerDataContainer.append", DC)
+    ap = fdef(tree, "CornerDataContainer.append", DC)
     parts.append(("CornerDataContainer.append", T.sha(src, ap)))
     ps = [a.arg for a in ap.args.args]
     if len(ps) != 3:
@@ -205,21 +275,20 @@ def gen():
     cz = {ps[1]: "x", ps[2]: "y"}
     defs.append("(* CornerDataContainer.append(x, y) records (element, owner) *)\n"
                 "Definition corner_append (x y : Z) : Z * Z := (%s, %s)." % (cz[tgt["_elem"]], cz[tgt["_adj"]]))
-    ln = T.find_def(tree, "CornerDataContainer.__len__", DC)
+    ln = fdef(tree, "CornerDataContainer.__len__", DC)
     bl = T.body_nodoc(ln)
     if not (len(bl) == 1 and isinstance(bl[0], ast.Return) and ast.unparse(bl[0].value) == "len(self._elem)"):
         T.fail(DC, ln, "len(corner container) is not len(self._elem)")
-    em = T.find_def(tree, "DataContainer.empty", DC)
+    em = fdef(tree, "DataContainer.empty", DC)
     bl = T.body_nodoc(em)
     if not (len(bl) == 1 and isinstance(bl[0], ast.Return) and ast.unparse(bl[0].value) == "not self._data"):
         T.fail(DC, em, "DataContainer.empty is not `return not self._data`")
 
     # ------------------------------------------------------------------ mesh_data.py
     src, tree = T.load(MD)
-    cls = T.find_def(tree, "RawMeshData", MD)
-
+    
     # --- prepare(): order of the steps
-    pr = T.find_def(tree, "RawMeshData.prepare", MD)
+    pr = fdef(tree, "RawMeshData.prepare", MD)
     parts.append(("RawMeshData.prepare", T.sha(src, pr)))
     b = T.body_nodoc(pr)
     if not (b and isinstance(b[0], ast.If) and ast.unparse(b[0].test) == "self._prepared" and len(b[0].body) == 1
@@ -252,11 +321,11 @@ def gen():
     defs.append("(* RawMeshData.prepare: the steps in source order, with the config switch gating each *)\n"
                 "Definition prepare_steps : list (gate * step) :=\n  [" + ";\n   ".join(steps) + "].")
     for nm in ("_prepare_faces", "_prepare_cells"):
-        f = T.find_def(tree, "RawMeshData." + nm, MD)
+        f = fdef(tree, "RawMeshData." + nm, MD)
         bb = T.body_nodoc(f)
         if not (len(bb) == 1 and isinstance(bb[0], ast.Pass)):
             T.fail(MD, f, nm + " is not `pass`")
-    f = T.find_def(tree, "RawMeshData._prepare_vertices", MD)
+    f = fdef(tree, "RawMeshData._prepare_vertices", MD)
     bb = T.body_nodoc(f)
     if not (len(bb) == 1 and isinstance(bb[0], ast.For) and ast.unparse(bb[0].iter) == "self.id_vertices"
             and len(bb[0].body) == 1 and ast.unparse(bb[0].body[0]) ==
@@ -264,7 +333,7 @@ def gen():
         T.fail(MD, f, "_prepare_vertices is not the Vec cast of every vertex")
 
     # --- _prepare_edges
-    pe = T.find_def(tree, "RawMeshData._prepare_edges", MD)
+    pe = fdef(tree, "RawMeshData._prepare_edges", MD)
     parts.append(("RawMeshData._prepare_edges", T.sha(src, pe)))
     b = T.body_nodoc(pe)
     if not (len(b) == 4 and ast.unparse(b[0]) == "N = len(self.vertices)" and isinstance(b[1], ast.FunctionDef)
@@ -291,8 +360,9 @@ def gen():
     # then branch: rebuild
     tb = br.body
     txt = [ast.unparse(s) for s in tb]
-    if not (len(tb) == 7 and txt[0] == "new_edges = DataContainer(id='edges')" and txt[1] == "new_attrs = dict()"
-            and txt[2] == "old_attrs = dict()" and isinstance(tb[3], ast.For) and txt[4] == "n = 0"
+    if not (len(tb) == 7 and sorted(txt[:3]) == sorted(["new_edges = DataContainer(id='edges')", "new_attrs = dict()",
+                                                       "old_attrs = dict()"])
+            and isinstance(tb[3], ast.For) and txt[4] == "n = 0"
             and isinstance(tb[5], ast.For) and txt[6] == "self.edges = new_edges"):
         T.fail(MD, br, "_prepare_edges: rebuild branch has an unexpected shape")
     fa = tb[3]
@@ -332,7 +402,7 @@ def gen():
                 "Definition attr_keep (dense has : bool) : bool := %s." % keep)
 
     # --- _generate_face_corners
-    f = T.find_def(tree, "RawMeshData._generate_face_corners", MD)
+    f = fdef(tree, "RawMeshData._generate_face_corners", MD)
     parts.append(("RawMeshData._generate_face_corners", T.sha(src, f)))
     b = T.body_nodoc(f)
     if not (len(b) == 3 and ast.unparse(b[0]) == "nc = len(self.face_corners)"
@@ -340,7 +410,7 @@ def gen():
         T.fail(MD, f, "_generate_face_corners: unexpected structure")
     defs.append("Definition fc_regen (nc nf : Z) : bool := %s." % Tr(MD, {"nc": "nc", "nf": "nf"}).b(b[2].test))
     ib = b[2].body
-    if not (len(ib) == 3 and ast.unparse(ib[0]) == "self.face_corners._elem = []" and ast.unparse(ib[1]) == "self.face_corners._adj = []"
+    if not (len(ib) == 3 and sorted(ast.unparse(x) for x in ib[:2]) == ["self.face_corners._adj = []", "self.face_corners._elem = []"]
             and isinstance(ib[2], ast.For) and ast.unparse(ib[2].iter) == "enumerate(self.faces)"):
         T.fail(MD, b[2], "_generate_face_corners: regeneration block has an unexpected shape")
     lo = ib[2]
@@ -356,7 +426,7 @@ def gen():
     defs.append("Definition fc_record (v owner : Z) : Z * Z := corner_append %s %s." % (m[args[0]], m[args[1]]))
 
     # --- _generate_cell_corners
-    f = T.find_def(tree, "RawMeshData._generate_cell_corners", MD)
+    f = fdef(tree, "RawMeshData._generate_cell_corners", MD)
     parts.append(("RawMeshData._generate_cell_corners", T.sha(src, f)))
     b = T.body_nodoc(f)
     if not (len(b) == 3 and ast.unparse(b[0]) == "nce = len(self.cell_corners._elem)"
@@ -385,7 +455,7 @@ def gen():
     else:
         T.fail(MD, aug, "_generate_cell_corners: unexpected target")
     bo = inner.orelse
-    if not (len(bo) == 3 and ast.unparse(bo[0]) == "self.cell_corners._elem = []" and ast.unparse(bo[1]) == "self.cell_corners._adj = []"
+    if not (len(bo) == 3 and sorted(ast.unparse(x) for x in bo[:2]) == ["self.cell_corners._adj = []", "self.cell_corners._elem = []"]
             and isinstance(bo[2], ast.For) and ast.unparse(bo[2].iter) == "enumerate(self.cells)"):
         T.fail(MD, inner, "_generate_cell_corners: full regeneration has an unexpected shape")
     lo = bo[2]
@@ -401,7 +471,7 @@ def gen():
     defs.append("Definition cc_record (v owner : Z) : Z * Z := corner_append %s %s." % (m[args[0]], m[args[1]]))
 
     # --- _generate_cell_faces
-    f = T.find_def(tree, "RawMeshData._generate_cell_faces", MD)
+    f = fdef(tree, "RawMeshData._generate_cell_faces", MD)
     parts.append(("RawMeshData._generate_cell_faces", T.sha(src, f)))
     b = T.body_nodoc(f)
     if not (len(b) == 3 and ast.unparse(b[0]) == "nce = len(self.cell_faces._elem)"
@@ -448,7 +518,7 @@ def gen():
     defs.append("Definition cf_put_adj (nce nca : Z) : bool := %s." % (put["adj"] or "false"))
 
     # --- _complete_edges_from_faces
-    f = T.find_def(tree, "RawMeshData._complete_edges_from_faces", MD)
+    f = fdef(tree, "RawMeshData._complete_edges_from_faces", MD)
     parts.append(("RawMeshData._complete_edges_from_faces", T.sha(src, f)))
     b = T.body_nodoc(f)
     if not (len(b) >= 4 and ast.unparse(b[0]) == "if self.faces.empty():\n    return"):
@@ -487,11 +557,13 @@ def gen():
     defs.append("(* the two positions of side i of a face with nf vertices *)\n"
                 "Definition side_a (i nf : Z) : Z := %s.\nDefinition side_b (i nf : Z) : Z := %s."
                 % (tri.z(call.args[0].slice), tri.z(call.args[1].slice)))
-    if ast.unparse(lo.body[1].body[1]) != "if edge not in edge_set:\n    edge_set.add(edge)\n    self.edges.append(edge)":
+    ins = lo.body[1].body[1]
+    if not (isinstance(ins, ast.If) and not ins.orelse and ast.unparse(ins.test) == "edge not in edge_set"
+            and sorted(ast.unparse(x) for x in ins.body) == ["edge_set.add(edge)", "self.edges.append(edge)"]):
         T.fail(MD, lo.body[1].body[1], "_complete_edges_from_faces: insertion test has an unexpected shape")
 
     # --- _complete_faces_from_cells
-    f = T.find_def(tree, "RawMeshData._complete_faces_from_cells", MD)
+    f = fdef(tree, "RawMeshData._complete_faces_from_cells", MD)
     parts.append(("RawMeshData._complete_faces_from_cells", T.sha(src, f)))
     b = T.body_nodoc(f)
     if not (len(b) == 3 and ast.unparse(b[0]) == "if self.cells.empty():\n    return"
@@ -505,12 +577,15 @@ def gen():
     defs.append("(* _complete_faces_from_cells: faces of one cell ([] for any other arity) *)\n"
                 "Definition cfc_cell_faces (%s : list Z) : list (list Z) :=\n  let lenC := Z.of_nat (length %s) in\n  %s."
                 % (C, C, _cell_table_chain(MD, b[2].body[1], C, trc, "[]")))
-    if ast.unparse(b[2].body[2]) != ("for face in faces_C:\n    face_key = utils.keyify(face)\n    if face_key not in face_set:\n"
-                                     "        face_set.add(face_key)\n        self.faces.append(face)"):
+    lf = b[2].body[2]
+    if not (isinstance(lf, ast.For) and ast.unparse(lf.iter) == "faces_C" and ast.unparse(lf.target) == "face" and len(lf.body) == 2
+            and ast.unparse(lf.body[0]) == "face_key = utils.keyify(face)" and isinstance(lf.body[1], ast.If)
+            and not lf.body[1].orelse and ast.unparse(lf.body[1].test) == "face_key not in face_set"
+            and sorted(ast.unparse(x) for x in lf.body[1].body) == ["face_set.add(face_key)", "self.faces.append(face)"]):
         T.fail(MD, b[2].body[2], "_complete_faces_from_cells: insertion loop has an unexpected shape")
 
     # --- _compute_dimensionality
-    f = T.find_def(tree, "RawMeshData._compute_dimensionality", MD)
+    f = fdef(tree, "RawMeshData._compute_dimensionality", MD)
     parts.append(("RawMeshData._compute_dimensionality", T.sha(src, f)))
     b = T.body_nodoc(f)
     if len(b) != 1 or not isinstance(b[0], ast.If):
@@ -537,7 +612,7 @@ def gen():
 
     # ------------------------------------------------------------------ mesh.py
     src, tree = T.load(MM)
-    f = T.find_def(tree, "_instanciate_raw_mesh_data", MM)
+    f = fdef(tree, "_instanciate_raw_mesh_data", MM)
     parts.append(("_instanciate_raw_mesh_data", T.sha(src, f)))
     b = T.body_nodoc(f)
     p0, p1 = [a.arg for a in f.args.args]
@@ -564,7 +639,7 @@ def gen():
     defs.append("(* class codes: 0 PointCloud, 1 PolyLine, 2 SurfaceMesh, 3 VolumeMesh; None = the function falls through *)\n"
                 "Definition class_of (dim : Z) : option Z := %sNone." % chain)
 
-    f = T.find_def(tree, "from_arrays", MM)
+    f = fdef(tree, "from_arrays", MM)
     parts.append(("from_arrays", T.sha(src, f)))
     b = T.body_nodoc(f)
     txt = [ast.unparse(s) for s in b]
@@ -606,7 +681,7 @@ def gen():
 
     # ------------------------------------------------------------------ datatypes/base.py
     src, tree = T.load(MB)
-    f = T.find_def(tree, "Mesh.__init__", MB)
+    f = fdef(tree, "Mesh.__init__", MB)
     parts.append(("Mesh.__init__", T.sha(src, f)))
     b = T.body_nodoc(f)
     if not (len(b) == 5 and isinstance(b[0], ast.If) and ast.unparse(b[0].test) == "data is None"
